@@ -347,3 +347,21 @@ Print Assumptions c15_script_307_post.
 Print Assumptions c15_script_303_post.
 Print Assumptions c15_script_304_300_399.
 Print Assumptions c15_script_301_body.
+
+(* ================================================================== the code's own table (translated fragments) *)
+(** The expression that picks the method of the redirected request inside [as_new_flow] (`let new_method = ...`) and the status
+    test of [Inner::is_redirect] are translated from src/client/flow.rs on every run (theories/Gen.v, FRAGMENTS of tools/rs2coq.py);
+    proofs/Gen_equiv_flow.v proves them equal, for every status and method, to the table of the statement and to what the model
+    computes.  (A fragment the translator no longer finds is reported in the evidence and tied by the correspondence check only.) *)
+From Hoot Require Import Gen.
+From Hoot.proofs Require Import Gen_equiv_flow.
+Theorem c15_code_redirect_method : forall status m, gen_redirect_method status m = redirect_method status m.
+Proof. exact gen_redirect_method_spec. Qed.
+Theorem c15_code_is_redirect_status : forall v, gen_is_redirect_status v = ((300 <=? v) && (v <=? 399)) && negb (v =? 304).
+Proof. exact gen_is_redirect_status_spec. Qed.
+Theorem c15_code_is_redirect_is_model : forall f,
+  is_redirect f = match i_status f with Some s => gen_is_redirect_status s | None => false end.
+Proof. exact is_redirect_gen. Qed.
+Print Assumptions c15_code_redirect_method.
+Print Assumptions c15_code_is_redirect_status.
+Print Assumptions c15_code_is_redirect_is_model.
